@@ -16,19 +16,30 @@ def ite_int(c, a, b):
     return z3.If(c, a, b)
 
 
-def shifted_insert(elts, pos, v):
-    j = z3.Int('j!ins')
-    return z3.Lambda([j], z3.If(j < pos, z3.Select(elts, j), z3.If(j == pos, v, z3.Select(elts, j - 1))))
+_K = z3.Int('K_view')
 
 
-def shifted_delete(elts, pos):
-    j = z3.Int('j!del')
-    return z3.Lambda([j], z3.If(j < pos, z3.Select(elts, j), z3.Select(elts, j + 1)))
+def def_array(ex, fn, at=()):
+    """an array defined pointwise by fn, kept quantifier- and lambda-free: a fresh array constant whose
+    definition is instantiated at the skolem index K_view (where every view comparison is made) and at the
+    given extra indices.  Weaker than the lambda (sound); complete for the element-wise specs, which are all
+    stated at K_view"""
+    arr = z3.Const(ex.fresh_name('arr'), z3.ArraySort(I, Val))
+    for i in (_K,) + tuple(at):
+        ex.assume(z3.Select(arr, i) == fn(i))
+    return arr
 
 
-def concat_arrays(a, na, b):
-    j = z3.Int('j!cat')
-    return z3.Lambda([j], z3.If(j < na, z3.Select(a, j), z3.Select(b, j - na)))
+def shifted_insert(ex, elts, pos, v):
+    return def_array(ex, lambda j: z3.If(j < pos, z3.Select(elts, j), z3.If(j == pos, v, z3.Select(elts, j - 1))), at=(pos,))
+
+
+def shifted_delete(ex, elts, pos):
+    return def_array(ex, lambda j: z3.If(j < pos, z3.Select(elts, j), z3.Select(elts, j + 1)))
+
+
+def concat_arrays(ex, a, na, b):
+    return def_array(ex, lambda j: z3.If(j < na, z3.Select(a, j), z3.Select(b, j - na)), at=(z3.IntVal(0), na))
 
 
 class PyModel:
@@ -98,7 +109,7 @@ class PyModel:
         base = z3.K(I, L.NoneV)
         for p, x in enumerate(rest):
             base = z3.Store(base, p, ex.to_val(x))
-        arr = z3.Lambda([j], z3.If(j < k, z3.Select(base, j), z3.Select(ex.heap.lelts(r), j - k + idx)))
+        arr = def_array(ex, lambda j: z3.If(j < k, z3.Select(base, j), z3.Select(ex.heap.lelts(r), j - k + idx)), at=(z3.IntVal(0), z3.IntVal(1)))
         return L.TupleV(ex.new_list(n - idx + k, arr, 'tuple'))
 
     def unpack(self, ex, v, n):
@@ -166,7 +177,7 @@ class PyModel:
                 n = n + 1
             else:
                 m, src = self.iter_snapshot(ex, v)
-                arr = concat_arrays(arr, n, src)
+                arr = concat_arrays(ex, arr, n, src)
                 n = n + m
         r = ex.new_list(L.simp(n), arr)
         ex.event('write', 'list', 'display<%s>' % ex.last_snapshot_kind, r, z3.IntVal(0), ex.heap.llen(r), ())
@@ -409,7 +420,7 @@ class PyModel:
                 i = self.num_value_int(key)
                 j = self.norm_index(i, n)
                 if ex.branch(z3.And(j >= 0, j < n), 'delitem-inrange'):
-                    ex.list_write('delitem', r, n - 1, shifted_delete(ex.heap.lelts(r), j))
+                    ex.list_write('delitem', r, n - 1, shifted_delete(ex, ex.heap.lelts(r), j))
                     return
                 ex.raise_('IndexError', 'list assignment index out of range')
             if ex.branch(L.is_Slice(key), 'delitem-slice'):
@@ -491,7 +502,7 @@ class PyModel:
                 h = ex.heap
                 na, nb = h.llen(ra), h.llen(rb)
                 ex.assume(z3.And(na >= 0, nb >= 0))
-                arr = concat_arrays(h.lelts(ra), na, h.lelts(rb))
+                arr = concat_arrays(ex, h.lelts(ra), na, h.lelts(rb))
                 if inplace:
                     ex.list_write('iadd', ra, na + nb, arr, stored=())
                     ex.event('iadd_from', ra, rb)
@@ -504,7 +515,7 @@ class PyModel:
                 ra, rb = L.simp(Val.tref(a)), L.simp(Val.tref(b))
                 h = ex.heap
                 na, nb = h.llen(ra), h.llen(rb)
-                arr = concat_arrays(h.lelts(ra), na, h.lelts(rb))
+                arr = concat_arrays(ex, h.lelts(ra), na, h.lelts(rb))
                 r = ex.new_list(na + nb, arr, 'tuple')
                 ex.event('write', 'list', 'concat', r, z3.IntVal(0), na + nb, ())
                 return L.TupleV(r)
@@ -513,7 +524,7 @@ class PyModel:
                 ra = L.simp(Val.lref(a))
                 m, src = self.iter_snapshot(ex, b)
                 na = ex.heap.llen(ra)
-                arr = concat_arrays(ex.heap.lelts(ra), na, src)
+                arr = concat_arrays(ex, ex.heap.lelts(ra), na, src)
                 ex.list_write('iadd', ra, na + m, arr, stored=())
                 return a
         if op == '*':
